@@ -1442,8 +1442,10 @@ func classifyCodec(c string) (int64, int64) {
 		// tier / bit depth): recover g by comparing with the expected literals (case-insensitive hex)
 		kind := map[string]int{"hvc1.": kH265, "vp09.": kVP9, "av01.": kAV1}[c[:5]]
 		for g := int64(0); g < 3; g++ {
-			if strings.EqualFold(c, videoCodecString(kind, 4*g)) {
-				return int64(kind), g
+			for q := int64(0); q < 4; q++ { // the H265 string also carries the source flags of variant q
+				if sameCodecString(c, videoCodecString(kind, 4*g+q)) {
+					return int64(kind), g
+				}
 			}
 		}
 		return int64(kind), -1
